@@ -86,6 +86,11 @@ def values_for(rng, name, shape, spread):
         # in float32 -- the float64 route and the integer route must still agree
         level = {4: 2 ** 30, 8: 2 ** 50}[dt.itemsize] * (-1 if (dt.kind == "i" and rng.random() < 0.5) else 1)
         lo, hi = level, level + 110
+    if spread == "top":
+        # a few counts of signal right below the upper end of the stated range (2**24 is there, 2**24 + 1 is not a float32)
+        lo, hi = 2 ** 24 - int(rng.integers(3, 60)), 2 ** 24
+    if spread == "bottom":
+        lo, hi = -2 ** 24, -2 ** 24 + int(rng.integers(3, 60))
     base = rng.poisson(12, shape).astype(np.float64)
     for _ in range(4):
         cy, cx = rng.integers(4, shape[0] - 4), rng.integers(4, shape[1] - 4)
@@ -97,6 +102,8 @@ def values_for(rng, name, shape, spread):
         base = 0.4 * base + 0.6 * (yy + 2 * xx) / (shape[0] + 2 * shape[1])
         lo, hi = max(lo, 0), min(hi, 30000)
     vals = np.floor(lo + base * (hi - lo))
+    if spread == "top":     # the disks saturate at the upper end
+        vals = np.minimum(np.floor(lo + 2.5 * base * (hi - lo)), hi)
     vals.flat[0], vals.flat[-1] = lo, hi
     return vals
 
@@ -180,7 +187,7 @@ def search(ctx, boost=1, focus=()):
     reps = (4 if ctx.tier == "thorough" else 1) * boost
     for rep in range(reps):
         for k, name in enumerate(DTYPES):
-            for spread in ("full", "narrow", "lifted") + (("min1",) if np.dtype(name).kind in "iu" else ()) + (("pedestal",) if (np.dtype(name).kind in "iu" and np.dtype(name).itemsize >= 4) else ()):
+            for spread in ("full", "narrow", "lifted") + (("min1",) if np.dtype(name).kind in "iu" else ()) + (("pedestal",) if (np.dtype(name).kind in "iu" and np.dtype(name).itemsize >= 4) else ()) + (("top",) if np.dtype(name).itemsize >= 4 else ()) + (("bottom",) if (np.dtype(name).itemsize >= 4 and np.dtype(name).kind in "if") else ()):
                 pat = impl.pattern_params(rng, kinds=("radial_gradient", "background_subtraction", "circular"), rmin=2, rmax=4)
                 c = int(np.ceil(pat["search"]))
                 shape = [int(rng.integers(2 * c + 8, 40)), int(rng.integers(2 * c + 8, 40))]
